@@ -61,6 +61,37 @@ def _check_own(ctx):
     check_ops(ctx, prog, R, eff, lookup)
 
 
+def lookup_components(prog, R):
+    """(projection of the matched record's offset, projection of its predecessor's offset) in the lookup's Some payload:
+    ('f:0', 'f:1') for the (current, previous) tuple, or the field projections of a two-field struct.  The
+    predecessor is the component that can be the zero offset (it starts as `T::new(0)`)."""
+    cache = prog.__dict__.setdefault("_lookup_components", {})
+    if "v" in cache:
+        return cache["v"]
+    fn = R.need("LOOKUP")
+    res = ("f:0", "f:1")
+    for b, s_ in ret_agg_blocks(fn, "core::option::Option", "Some"):
+        for o in origins(prog, fn, s_["rhs"]["ops"][0], at=b):
+            if o.kind != "agg" or len(o.data.get("ops", [])) != 2:
+                continue
+            if o.data.get("agg") == "tuple":
+                names = ["f:0", "f:1"]
+            elif o.data.get("agg") == "adt" and len(o.data.get("fields", [])) == 2:
+                sn = (o.data.get("adt") or "").rsplit("::", 1)[-1]
+                names = ["f:%s.%s" % (sn, f_) for f_ in o.data["fields"]]
+            else:
+                continue
+            zero = lambda x: x.kind == "call" and (x.data.get("callee") or "").endswith("::new") and x.data.get("args") and \
+                const_origin(origins(prog, fn, x.data["args"][0], at=x.block)) == 0
+            z = [any(zero(x) for x in origins(prog, fn, op_)) for op_ in o.data["ops"]]
+            if z == [False, True]:
+                res = (names[0], names[1])
+            elif z == [True, False]:
+                res = (names[1], names[0])
+    cache["v"] = res
+    return res
+
+
 def _includes_is_some(ctx, prog, fn, lookup, eff):
     """includes_key written without a branch: `lookup(..)?.is_some()` / `lookup(..).map(|o| o.is_some())`."""
     ok_vals = []
@@ -129,9 +160,14 @@ def check_lookup(ctx, prog, R, fn):
     for b, s in ret_agg_blocks(fn, "core::option::Option", "Some"):
         tup = origins(prog, fn, s["rhs"]["ops"][0], at=b)
         for o in tup:
-            if o.kind == "agg" and o.data.get("agg") == "tuple" and len(o.data["ops"]) == 2:
-                cur = origins(prog, fn, o.data["ops"][0])
-                prv = origins(prog, fn, o.data["ops"][1])
+            if o.kind == "agg" and len(o.data.get("ops", [])) == 2 and (o.data.get("agg") == "tuple" or (o.data.get("agg") == "adt" and len(o.data.get("fields", [])) == 2)):
+                cp_, pp_ = lookup_components(prog, R)
+                if o.data.get("agg") == "tuple":
+                    ci, pi = int(cp_[2:]), int(pp_[2:])
+                else:
+                    ci, pi = o.data["fields"].index(cp_.rsplit(".", 1)[1]), o.data["fields"].index(pp_.rsplit(".", 1)[1])
+                cur = origins(prog, fn, o.data["ops"][ci])
+                prv = origins(prog, fn, o.data["ops"][pi])
                 zero = lambda x: x.kind == "call" and (x.data.get("callee") or "").endswith("::new") and const_origin(origins(prog, fn, x.data["args"][0], at=x.block)) == 0
                 ctx.check(cand_ok(cur), "lookup-result", "current", "first component of the lookup result is not the matched candidate offset (%s)" % cur, where=where(fn, b))
                 ctx.check(bool(prv) and any(zero(x) for x in prv) and all(zero(x) or is_role_origin(prog, R, fn, x, "HEAD_READ") or is_role_origin(prog, R, fn, x, "NEXT_AT") for x in prv),
@@ -210,7 +246,7 @@ def check_ops(ctx, prog, R, eff, lookup):
             lv = R.get("LOAD_VALUE")
             for b, t in (calls_to(prog, fn, target_fn=lv) if lv else []):
                 os_ = origins(prog, fn, t["args"][1], at=b)
-                ctx.check(bool(os_) and all(is_call_to(prog, fn, o, lookup) and o.proj[-1:] == ("f:0",) for o in os_), "op-wiring", "get_kt:found:value-of-found-key",
+                ctx.check(bool(os_) and all(is_call_to(prog, fn, o, lookup) and o.proj[-1:] == (lookup_components(prog, R)[0],) for o in os_), "op-wiring", "get_kt:found:value-of-found-key",
                           "get loads the value of an offset that is not the found key record (%s)" % os_, where=where(fn, b))
             if lv:
                 ctx.touch(lv)
